@@ -79,6 +79,9 @@ type checker struct {
 	// cycle cuts of the overlap evaluator (documents with fragment cycles are infinite trees)
 	setsDone map[*gen.Sel]bool
 	inProg   map[[2]*gen.Sel]bool
+	// unspec: rules whose verdict the document leaves open (e.g. which of two different
+	// definitions of one variable name governs its usages)
+	unspec map[string]bool
 }
 
 func (c *checker) add(rule, what string, at ...string) { c.v[rule] = append(c.v[rule], V{what, at}) }
@@ -245,7 +248,13 @@ func LiteralValid(s *gen.Schema, t *gen.TypeRef, v *gen.Value) bool {
 // ---- the rules ----
 
 func Check(s *gen.Schema, d *gen.Doc) Violations {
-	c := &checker{s: s, d: d, v: Violations{}, setsDone: map[*gen.Sel]bool{}, inProg: map[[2]*gen.Sel]bool{}}
+	v, _ := CheckU(s, d)
+	return v
+}
+
+// CheckU also returns the rules that are not judged for this document.
+func CheckU(s *gen.Schema, d *gen.Doc) (Violations, map[string]bool) {
+	c := &checker{s: s, d: d, v: Violations{}, setsDone: map[*gen.Sel]bool{}, inProg: map[[2]*gen.Sel]bool{}, unspec: map[string]bool{}}
 	c.argumentsAndNames()
 	c.defaultsAndVariables()
 	c.fieldsAndLeafs()
@@ -258,7 +267,7 @@ func Check(s *gen.Schema, d *gen.Doc) Violations {
 	c.uniqueness()
 	c.possibleSpreads()
 	c.overlap()
-	return c.v
+	return c.v, c.unspec
 }
 
 func (c *checker) argDefs(parent string, sel *gen.Sel) []*gen.ArgDef {
@@ -614,9 +623,14 @@ func (c *checker) variableUsage() {
 		}
 		c.usesIn(c.rootType(op), op.Sel, map[string]bool{}, &uses)
 		defs := map[string]*gen.VarDef{}
+		ambiguous := map[string]bool{}
 		for _, vd := range op.Vars {
-			if _, dup := defs[vd.Name]; !dup {
+			if first, dup := defs[vd.Name]; !dup {
 				defs[vd.Name] = vd
+			} else if first != vd && (!first.Type.Equal(vd.Type) || (first.Default == nil) != (vd.Default == nil)) {
+				// two different definitions of one name (UniqueVariableNames reports it): which
+				// of them governs the usages is left open
+				ambiguous[vd.Name] = true
 			}
 		}
 		used := map[string]bool{}
@@ -625,6 +639,10 @@ func (c *checker) variableUsage() {
 			vd := defs[u.name]
 			if vd == nil {
 				c.add("NoUndefinedVariables", "$"+u.name+" in operation "+op.Name, "$"+u.name, opAt(op))
+				continue
+			}
+			if ambiguous[u.name] {
+				c.unspec["VariablesInAllowedPosition"] = true
 				continue
 			}
 			if u.pos != nil && c.s.Type(vd.Type.Base()) != nil {
